@@ -106,6 +106,14 @@ class Hist:
         data = [self.r.randrange(256) for _ in range(size)]
         self.call(("updatefw", list(nids), t, v, data))
 
+    def fw_config_req(self, n, t=1, v=1):
+        from harness.gen.histories import hexw
+        self.recv(f"{n};255;4;0;0;{hexw(t, v, 3, 0xABCD, 0x0102)}")
+
+    def fw_block_req(self, n, t=1, v=1, blk=0):
+        from harness.gen.histories import hexw
+        self.recv(f"{n};255;4;0;2;{hexw(t, v, blk)}")
+
     def filler(self, k, calls=True):
         for _ in range(k):
             if calls and self.r.random() < 0.2:
@@ -254,7 +262,13 @@ def c04_directed(rng, cfg):
             r.choice([h.battery, h.sketch_name, h.sketch_version, h.heartbeat if h.vi >= 2 else h.battery])(n)
         elif k < 0.85:
             h.child(n, r.choice([0, 1, 3, 9, 200, 254]))
-        elif k < 0.93 and h.vi >= 2 and ch:  # smart sleep: reports of old and of LATE children, desired values in between
+        elif k < 0.89:                      # firmware session: the callback must see the node's own request lines
+            h.updatefw([n], 1, 1, size=r.choice([20, 40, 130]))
+            h.fw_config_req(n)
+            for blk in r.sample([0, 1, 2, 7], 2):
+                h.fw_block_req(n, blk=blk)
+            h.fw_block_req(n, t=2, v=2, blk=0)       # a type/version that is not loaded
+        elif k < 0.95 and h.vi >= 2 and ch:  # smart sleep: reports of old and of LATE children, desired values in between
             h.wake(n)
             late = r.choice([x for x in (11, 12, 13, 14, 210) if x not in ch] or [211])
             h.child(n, late, typ=r.choice([0, 1, 3, 6, 16]))
